@@ -7,9 +7,9 @@ C = {
  'C01': ('well-formedness invariant evaluated on every node after every operation and inside update/react/query/guard callbacks', '9 C01',
          'exploration of seeded histories (all request kinds, guard vetoes and substitutions, adversarial select()/utility()/rng values, reset, loads into unrelated configurations, replays, crash recovery) on 17 fixed shapes x up to 17 configurations; the invariant is model-free (computed from an independently derived structure table)',
          'trusts gen/shapes.py for the structure table (static_asserted against the library ids/counts) and the harness observation through isActive()/activeSubState(); generator respects the documented preconditions; sampling, not enumeration'),
- 'C02': ('clause-wise reference model (sim/model.cpp) fed the observed approved requests, resolver returns and random numbers: destination active, choice by request kind, untouched regions, resumable marks, reset, idle processing', '9 C02 / Appendix B.1',
+ 'C02': ('clause-wise reference model (sim/model.cpp) fed the observed approved requests, resolver returns and random numbers: destination active, choice by request kind, untouched regions, resumable marks, reset, idle processing; requests are queued as the kind and destination the caller named, through the id-based and the templated flavour of the API alike', '9 C02 / Appendix B.1',
          'refinement of sampled steps against a small executable model written from the statement; clauses the statement leaves open are explicit don\'t-cares; documented defects of batch handling are avoided and announced as known findings',
-         'the model (about 300 lines) is part of the trusted base; multi-request batches are only checked for untouched regions and resumable marks while findings F-C02-1..3 are open'),
+         'the model (about 300 lines) is part of the trusted base; multi-request batches are only checked for untouched regions and resumable marks while findings F-C02-1..4 are open'),
  'C03': ('per-(instance,state) lifecycle automaton over the callback trace plus object identity (this == &access<State>(), inside the arena); entered set equals active set after every operation; everything exited after exit()/destruction', '9 C03',
          'exploration over construction-to-destruction histories including manual enter/exit cycles, reset, load, replay, crash (storage dropped), copies and death of the original',
          'trusts the harness trace (every callback of every headed state records itself)'),
@@ -34,9 +34,9 @@ C = {
  'C10': ('trace and observation equality between an instance and its identically driven twin in differently pre-filled, differently placed storage; copy continues like the original; simulator same-seed-twice hash', '9 C10',
          'differential exploration: four arena fill patterns, relocation on restart, copy at arbitrary operations, death of the original, built-in and scripted generators',
          'finding F-C10-1 (copies share the built-in generator) open'),
- 'C11': ('AddressSanitizer + UBSan build with poisoned red zones around the instance and serial buffers; library assertions routed to a handler (hook) -- the first hit ends the run and is reported; allocation counters (operator new, --wrap=malloc) in the plain build; arena guard bytes', '9 C11',
+ 'C11': ('AddressSanitizer + UBSan build with poisoned red zones around the instance and serial buffers; library assertions routed to a handler (hook) -- the first hit ends the run and is reported; allocation counters (operator new, --wrap=malloc) in the plain build; arena guard bytes; model-free structural oracles (well-formed configuration, lifecycle balance against the registry, task links, pool, payload intact) as detectors of corruption that stays inside the instance', '9 C11',
          'exploration under sanitizers of the C01 workload plus bursts beyond the queue capacity, appends beyond task capacity, copies used after the original died',
-         'within the documented preconditions enforced by the generator; findings F-C11-1..5 open (each an assertion trip reachable through the public API)'),
+         'within the documented preconditions enforced by the generator; findings F-C11-1..6 open (each an assertion trip reachable through the public API)'),
  'C12': ('exact-arithmetic (long double) argmax / cumulative-interval model with float-rounding slack, fed the scripted rank()/utility() returns and generator outputs incl. 0, 1-2^-24, k/8 and their neighbours; one draw per random region resolved', '9 C12',
          'refinement of utilize / randomize / change-into-Utilitarian/Random steps on shapes nesting such regions in composite and orthogonal regions',
          'candidates within 1e-6 relative of the maximum / 4 ulp of an interval boundary are accepted (float rounding); headless regions below Utilitarian/Random regions are excluded by the shape generator'),
